@@ -251,16 +251,17 @@ theorem close_rolls_back_all {c : Conn} {s : Spec} (h : Sim c s) :
     have hsc := h.rootNone hr
     have hnn : c.nested = none := sim_nested_none h hr
     have hwc : c.db.raw.working = c.db.committed := by rw [h.working, h.committed, hcl']
+    have hsk : c.db.skipsRollback = false := by simp [DB.skipsRollback, h.noauto]
     refine ⟨rfl, ?_, ?_, ?_, ?_, ?_⟩
     · simp [Conn.release, Conn.closed, hd]
     · cases hrs : c.db.reset <;>
         simp [Conn.release, hd, DB.checkin, hrs, takeFault_nil _ _ hnf, DB.commit, DB.rollback,
-          h.committed, hwc]
+          h.committed, hwc, hsk]
     · simp [Conn.release, Conn.inTransaction, htr, hd]
     · simp [Conn.release, Conn.inNested, hnn, hd]
     · cases hrs : c.db.reset <;>
         simp [Conn.release, hd, DB.checkin, hrs, takeFault_nil _ _ hnf, DB.commit, DB.rollback,
-          hwc, h.committed, h.savesNone hr]
+          hwc, h.committed, h.savesNone hr, hsk]
 
 
 /-! ## context managers (`with conn.begin(): …`, `with conn.begin_nested(): …`)
